@@ -558,7 +558,10 @@ def run_pipeline(tier, seed, log=lambda s: None):
 
 def add_dis(res, prop, nm, c, msg, a, b):
     lst = res['disagreements'].setdefault(prop, [])
-    if len(lst) < 40:
+    if len(lst) >= 60:
+        lst.sort(key=lambda v: (len(v['input']), len(v['script'])))
+        del lst[30:]
+    if len(lst) < 60 or len(c['input']) < len(lst[-1]['input']):
         lst.append({'program': nm, 'case': c['id'], 'ctor': c['ctor'], 'input': c['input'], 'script': c['script'], 'ncalls': c['ncalls'], 'msg': msg,
                     'impl': first_diff(a, b)[0], 'other': first_diff(a, b)[1]})
     res['disagreements'].setdefault('_count', {}).setdefault(prop, 0)
@@ -567,7 +570,11 @@ def add_dis(res, prop, nm, c, msg, a, b):
 
 def add_violation(res, prop, nm, c, msg, a, b):
     lst = res['oracle_violations'].setdefault(prop, [])
-    if len(lst) < 40:
+    if len(lst) >= 60:
+        # keep the shortest failing inputs
+        lst.sort(key=lambda v: (len(v['input']), len(v['script'])))
+        del lst[30:]
+    if len(lst) < 60 or len(c['input']) < len(lst[-1]['input']):
         lst.append({'program': nm, 'case': c['id'], 'ctor': c['ctor'], 'input': c['input'], 'script': c['script'], 'ncalls': c['ncalls'], 'msg': msg,
                     'impl': first_diff(a, b)[0], 'expected': first_diff(a, b)[1]})
     res['oracle_violations'].setdefault('_count', {}).setdefault(prop, 0)
